@@ -44,7 +44,7 @@ def all_terms(tier):
     out += [(t, "T1", b["L_T1"]) for t in G.tier1()]
     out += [(t, "T2", b["L_T2"]) for t in G.tier2(strict=False)]
     out += [(t, "T3", b["L_T3"]) for t in G.tier3(strict=False)]
-    out += [(t, "T4", b["L_T2"]) for t in G.tier4()]
+    out += [(t, "T4", b["L_T2"]) for t in G.tier4()] + [(t, "TD", b["L_T2"]) for t in G.discard_terms()]
     if tier == "thorough":
         out += [(t, "T5", b["L_T5"]) for t in G.tier5(strict=False)]
     return out
